@@ -44,7 +44,8 @@ RESPAWN_THOROUGH = ["io=ppp,x8", "a3,e3,cwd,uid,gid,pg,cl3,io=pnp,x4", "io=npi/i
                     "io=pnp/io=r../io=r../io=I..", "cl1/clf9/cl1", "e3,twice/-/e2"]
 PARENT_ERRNOS = [4, 11, 12, 24, 13, 5]
 CHILD_ERRNOS = [9, 13, 1]
-SYS_OF_FLAG = [("cwd", "chdir"), ("uid", "setuid"), ("gid", "setgid"), ("pg", "setpgid")]
+# do_spawn's order (the gid before the uid since 925c7e5)
+SYS_OF_FLAG = [("cwd", "chdir"), ("gid", "setgid"), ("uid", "setuid"), ("pg", "setpgid")]
 
 
 def parse(line):
@@ -565,10 +566,11 @@ def run(ctx):
         "{0, 4242, 4343}, supplementary groups), spawns `cat /proc/self/status` with .uid/.gid/.pgroup and the image's own Uid:/Gid:/Groups:/"
         "NSpgid: lines are judged by the kernel's rules (capability = effective uid 0; setuid/setgid with it: all three ids, without it: the "
         "effective id only and only to the real or saved one, else EPERM; setpgid to 0 / an existing group of the session / else EPERM; exec: "
-        "saved := effective) applied in do_spawn's order uid, gid, pgroup — the rules are an assumption, the run against the kernel is their "
+        "saved := effective) applied in do_spawn's order gid, uid, pgroup (925c7e5) — the rules are an assumption, the run against the kernel is their "
         "test; needs CAP_SETUID + CAP_SETGID, without them the stream degrades to the caller's own identity and records `not runnable here` "
-        "(evidence field identity_stream); the order's consequences for a privileged caller (uid+gid drop refused with EPERM, real gid not "
-        "moved) are counted in the evidence and proved as witnesses, not judged; the harness gives itself three "
+        "(evidence field identity_stream); a privileged caller's `.uid(u).gid(g)` must be delivered exactly (before 925c7e5 the uid step came "
+        "first and the request was refused with EPERM or left the real gid: repaired, Legacy witnesses in Props/C13.lean); supplementary groups "
+        "are never touched by spawn (no groups API: documented fact, `groups_survive_drop`); the harness gives itself three "
         "distinct files as stdin/stdout/stderr so that an inherited stream is told from /dev/null and from a pipe; a MakePipe stream must be "
         "the very pipe whose other end the caller is handed in Child (same pipe inode); every pre-exec closure leaves a mark when called",
         "the 8-byte message on the CLOEXEC pipe is delivered atomically and written only by the child (a forced read result of 8 garbage "
